@@ -22,7 +22,7 @@ add("C01", "model-based testing: generated data-unit histories vs a from-scratch
     "Trusts the harness' stream model (oracles/stream_model.py, hand-translated level patterns) and a permissive level-constraint column "
     "appended in-process; unit blobs come from the encoder of the tree under test (C03 judges them).")
 add("C02", "structure-aware mutation fuzzing (byte-, bit-field-, field- and unit-level) + coverage-guided fuzzing (atheris) with exception bucketing",
-    "Exploration: ~30k (quick) / ~380k generated + ~640k coverage-guided (thorough) byte strings derived from 32 valid streams by stacked byte mutations, field-aware bit "
+    "Exploration: ~30k (quick) / ~380k generated + ~640k coverage-guided (thorough) byte strings derived from 34 valid streams by stacked byte mutations, field-aware bit "
     "splices (incl. exp-Golomb values of up to 40000 bits), description-level field/unit mutations, extra padding/auxiliary payload units, re-sized low-delay slices and random data are run through init_io+parse_stream; outcome must be accept, "
     "ConformanceError (whose explain/str/offending_offset/viewer-hint must work) or out-of-scope; crashes are bucketed by root cause.",
     "Size guard (per-field bounds) excludes streams declaring huge pictures. Thorough tier adds 16 coverage-guided libFuzzer jobs (atheris, oracle inside the target, exceptions bucketed) from empty and valid-stream corpora; quick tier is generator-only.")
@@ -105,7 +105,7 @@ add("C19", "generated required-lists x pattern sets vs brute-force reference sea
     "Exploration: required lists x 1-2 generated patterns x depth limits, plus real level/test-case pattern combinations; result must be a sound supersequence of minimal length, impossibility only when the reference finds none. D4 (greedy cut) is a listed known finding with a semantic signature.",
     "Reference enumerates supersequences up to a bound; known-finding signature defined over the greedy-constrained solution space.", ready=True)
 add("C20", "stateful model-based testing of writer/reader op sequences + exhaustive bit strings vs a bit-list model",
-    "Exploration: exhaustive in-byte seek-back/overwrite enumeration (506k cases), ~25k op-sequence machines (writer primitives incl. out-of-range values, bounded blocks, seeks) read back by both readers, exhaustive 0-2 byte files x block lengths x read programs on both readers, exp-Golomb length functions to 2^300.",
+    "Exploration: files of 64-256 KiB read to the end by both readers, exhaustive in-byte seek-back/overwrite enumeration (506k cases), ~25k op-sequence machines (writer primitives incl. out-of-range values, bounded blocks, seeks) read back by both readers, exhaustive 0-2 byte files x block lengths x read programs on both readers, exp-Golomb length functions to 2^300.",
     "Reader agreement inside blocks only for lengths >= 0; writer seek only in its caller's pattern.")
 add("C21", "generated serdes programs interpreted by a reference interpreter (round trip, missing/unused, reuse)",
     "Exploration: ~20k (quick) / 800k (thorough) random description programs (primitives, lists, typed subcontexts, bounded blocks, alignment, computed values, data-dependent control flow) with the three oracle parts of DESIGN C21 plus a non-list value under a list target.",
